@@ -326,6 +326,7 @@ func (s c06Site) String() string {
 // c06Driver is the coverage floor of the reach dimension: every route must have been
 // generated with a host panic in a case the model judged.
 func c06Driver(d *fw.D) {
+	c06LibDriver(d)
 	seen := d.Sets["panic_routes_judged"]
 	var missing []string
 	for _, r := range c06RouteNames() {
